@@ -95,15 +95,23 @@ type DecimateState struct {
 	DecimateAvgMode bool
 }
 
+// checkPulseLengths tells whether ConfigurePulseLengths would refuse these lengths, without changing anything.
+func (dsp *DataStreamProcessor) checkPulseLengths(nsamp, npre int) error {
+	emt := dsp.EMTState
+	emt.nsamp, emt.npre = int32(nsamp), int32(npre)
+	if dsp.EdgeMulti && !emt.valid() {
+		return fmt.Errorf("dsp.EMTState in invalid")
+	}
+	return nil
+}
+
 // ConfigurePulseLengths sets this stream's pulse length and # of presamples.
 // Also removes any existing projectors and basis.
 func (dsp *DataStreamProcessor) ConfigurePulseLengths(nsamp, npre int) error {
 	// Refuse lengths that the edge-multi trigger in use cannot work with before anything is changed:
 	// a refused request must leave the channel as it was.
-	emt := dsp.EMTState
-	emt.nsamp, emt.npre = int32(nsamp), int32(npre)
-	if dsp.EdgeMulti && !emt.valid() {
-		return fmt.Errorf("dsp.EMTState in invalid")
+	if err := dsp.checkPulseLengths(nsamp, npre); err != nil {
+		return err
 	}
 	// if nsamp or npre is invalid, panic, do not silently ignore
 	if dsp.NSamples != nsamp || dsp.NPresamples != npre {
